@@ -3,7 +3,9 @@
 Route T + hand model: coq/gen/atmosphere.v (kernels, constants, ISA table) is regenerated from the tree under test on
 every run; Model/C14_column.v models integrate_column (numpy.trapezoid on one lane and on whole slices of an n-d array),
 integrate_water_vapor (both forms), column_relative_humidity, pressure2height and standard_atmosphere on lists of reals,
-and Props/C14.v proves the laws of the property about that model.
+and Props/C14.v proves the laws of the property about that model. Model/C14_forms.v puts the two IWV formulations side by
+side over z = pressure2height(p, T_v) (the hydrostatic height of the moist column); their exact layer-by-layer difference,
+its bounds and the limit under grid refinement are theorems, swept on the implementation below.
 
 Tie (1): pointwise enclosures -- Coq's interval tactic proves that the real-valued model, evaluated at the very inputs
 the implementation was called with, lies within a conditioning-based tolerance of the float the implementation returned
@@ -23,9 +25,9 @@ NEEDED = ["atmosphere." + f for f in (
     "vmr2specific_humidity", "specific_humidity2vmr", "water_vapor_pressure2specific_humidity", "density",
     "e_eq_mixed_mk", "e_eq_water_mk", "e_eq_ice_mk", "isa_table")]
 REQ = ("From Coq Require Import List Lia.\nImport ListNotations.\nFrom TyphonGen Require Import atmosphere.\n"
-       "From Typhon Require Import Model.C14_column Proofs.C09_humidity Proofs.C14_hydro.")
+       "From Typhon Require Import Model.C14_column Model.C14_forms Proofs.C09_humidity Proofs.C14_hydro.")
 REQ_BARE = ("From Coq Require Import List Lia.\nImport ListNotations.\nFrom TyphonGen Require Import atmosphere.\n"
-            "From Typhon Require Import Model.C14_column.")
+            "From Typhon Require Import Model.C14_column Model.C14_forms.")
 TRUSTED = [
     "translator tools/translate (Python-ast -> Coq over R), fail-closed; float literals read as decimals (<= 2^-53 relative)",
     "IEEE-754 rounding is bridged pointwise by interval enclosures with tolerances that follow the conditioning "
@@ -34,7 +36,8 @@ TRUSTED = [
     "an array of any rank is handed to the model as its C-order block outer x n x inner (numpy reshape is trusted for that)",
     "constants.g = constants.earth_standard_gravity and the default R of density() = gas_constant_dry_air are read from "
     "the tree under test and compared with the translated constants on every run",
-    "agreement of the two IWV formulations under grid refinement is checked numerically only (named gap: convergence)",
+    "the two IWV formulations are compared over z = pressure2height(p, T_v), the code's own hydrostatic height at the virtual "
+    "temperature T_v = T R_v / (R_d ((1 - x) Md / Mw + x)) (the harness forms T_v; the theorems are about exactly this z)",
 ]
 EPS = float(np.finfo(float).eps)
 SAT = ("repeat first [rewrite mixed_is_ice by (unfold c_triple_point_water; lra) | "
@@ -277,6 +280,23 @@ def enclosure_cases(ctx, mc, atm, have_hydro):
                 (lambda Q=Q, T=T, p=p, axis=axis, rank=rank: np.asarray(
                     call(atm.column_relative_humidity, Q.copy(), p, T.copy(), **({} if rank == 1 else {"axis": axis}))).reshape(-1)),
                 f"cbv [crh iwv_hydro trapz map zip2 qsat {KERNELS}]. {SAT}", 1e-9, idx=o * inner + i)
+    # the general form over the hydrostatic height of the moist column (pressure2height at the virtual temperature): the
+    # composite the theorems iwv_forms_* are about
+    Rv_, Rd_, k_ = 461.52280831345604, 287.0570048905812, 0.0289645 / 0.01801528
+    for _ in range(ctx.n(4, 16)):
+        n = int(rng.choice([2, 3, 5, 8]))
+        p = pressure_grid(rng, n, min_rel=0.01)
+        x = np.array([nice(v, 5) for v in rng.uniform(0, 0.04, n) * (p / p[0]) ** 2])
+        T = temperature_profile(rng, p)
+
+        def composite(x=x, p=p, T=T):
+            Tv = T * Rv_ / (Rd_ * ((1 - x) * k_ + x))
+            return call(atm.integrate_water_vapor, x, p, T, call(atm.pressure2height, p, Tv))
+        zs = 29.3 * T.max() * 1.02 * np.log(p[0] / p)          # rough scale of the heights only
+        add("integrate_water_vapor.moist-column", f"iwv_general {L(x)} {L(p)} {L(T)} (moist_height {L(x)} {L(p)} {L(T)})",
+            {"vmr": x.tolist(), "p": p.tolist(), "T": T.tolist(), "z": "pressure2height(p, T_v)"}, composite,
+            f"cbv [iwv_general moist_height pressure2height cumsum_from layers virtual_temperature moist_factor trapz zip3 zip2 {KERNELS}].",
+            (8 * n + 128) * EPS * mag(x * p / (461.5 * T), zs))
     return cases, raised
 
 
@@ -414,8 +434,54 @@ def law_sweep(ctx, mc, atm, only=None):
             except Exception as e:  # noqa
                 raise Raised(f"{type(e).__name__}: {e}")
 
+    kM = Md / Mw
+
+    def virtual_temperature(x, T):
+        """the temperature at which dry air (the default R of density / pressure2height) has the density of the moist air"""
+        return T * Rv / (Rd * ((1 - x) * kM + x))
+
+    def forms(x, p, T):
+        """both forms on the implementation, z = pressure2height(p, T_v); the layer defects and contrasts of
+        Props/C14.v (iwv_forms_layer_identity, iwv_forms_close) formed from the implementation's own q and density"""
+        Tv = virtual_temperature(x, T)
+        z = np.asarray(call(atm.pressure2height, p, Tv))
+        hyd = float(call(atm.integrate_water_vapor, x, p))
+        gen = float(call(atm.integrate_water_vapor, x, p, T, z))
+        q = np.asarray(call(atm.vmr2specific_humidity, x))
+        rho = np.asarray(call(atm.density, p, Tv))
+        dp = p[:-1] - p[1:]
+        defect = math.fsum(dp / (2 * g) * (q[:-1] - q[1:]) * (rho[:-1] - rho[1:]) / (rho[:-1] + rho[1:]))
+        rm1 = dp / p[1:]
+        contrast = rm1 + (kM - 1) * np.abs(x[:-1] - x[1:]) + np.abs(T[:-1] - T[1:]) / T[:-1]
+        slack = 16 * (p.size + 64) * EPS * (mag(q, p) / g) + 1e-300
+        return hyd, gen, defect, contrast, rm1, slack
+
+    def iwv_forms():
+        """iwv_forms_layer_identity, iwv_forms_close, iwv_forms_close_second_order of Props/C14.v, on the implementation"""
+        for n in [2, 3, 10, 60, 400] + ([3000] if not ctx.thorough else [3000, 10000]):
+            for r in range(ctx.n(3, 12)):
+                p = pressure_grid(rng, n, top=float(rng.choice([1e2, 100e2, 300e2])))
+                noise = float(rng.choice([0.0, 0.3, 3.0]))
+                T = np.clip(200 + 100 * (p / p[0]) ** 0.19 + rng.normal(0, 1, n) * noise, 180.0, 330.0)
+                x = np.clip(rng.uniform(0, 0.05) * (p / p[0]) ** rng.uniform(0, 4) * (1 + rng.uniform(-0.3, 0.3, n) * (r % 2)), 0.0, 0.05)
+                if r == 2:
+                    x[:] = 0.0
+                case = {"n": n, "vmr": small(x), "p": small(p), "T": small(T), "z": "pressure2height(p, T_v)"}
+                hyd, gen, defect, contrast, rm1, slack = forms(x, p, T)
+                evals[0] += 3
+                if not abs((gen - hyd) - defect) <= slack:
+                    bad("integrate_water_vapor:forms-identity", f"general form {gen!r} - hydrostatic form {hyd!r} = {gen - hyd!r} but the sum of the "
+                        f"layer defects dp/(2g) (q0-q1) (rho0-rho1)/(rho0+rho1) is {defect!r} (n = {n}, z = pressure2height(p, T_v))", case)
+                e, dx = float(contrast.max()), float(np.abs(np.diff(x)).max())
+                second = e * kM * dx * float(p[0] - p[-1]) / (2 * g)
+                if not (abs(gen - hyd) <= e * hyd + slack and abs(gen - hyd) <= second + slack):
+                    bad("integrate_water_vapor:forms-close", f"|general - hydrostatic| = {abs(gen - hyd)!r} exceeds the bound of the layer contrasts: "
+                        f"e * hydrostatic = {e * hyd!r}, second order {second!r} (e = {e!r}, n = {n})", dict(case, contrast=e, dx=dx))
+
     def iwv_convergence():
-        """the two forms on refined grids, z being the hydrostatic height of the moist column (numerical, not a theorem)"""
+        """iwv_forms_close_under_refinement / iwv_forms_converge on the implementation: smooth profiles on refined grids, z the
+        code's own hydrostatic height of the moist column; the difference obeys C d * hydrostatic and the second-order bound,
+        and falls as the grid is refined"""
         N = 2 ** 13
         for r in range(ctx.n(3, 20)):
             T0, kap = rng.uniform(265, 305), rng.uniform(0.1, 0.24)
@@ -424,22 +490,29 @@ def law_sweep(ctx, mc, atm, only=None):
             p = np.exp(lnp)
             T = T0 * (p / p[0]) ** kap
             x = x0 * (p / p[0]) ** a
-            Rm = 8.31446261815324 / ((1 - x) * Md + x * Mw)          # gas constant of the moist air
-            f = Rm * T / g                                            # dz = -f dln p
-            z = np.concatenate([[0.0], np.cumsum(-(f[1:] + f[:-1]) / 2 * np.diff(lnp))])
-            D = []
+            D, ok = [], True
             for stride in (128, 32, 8, 2):
                 s = slice(None, None, stride)
-                a_ = float(call(atm.integrate_water_vapor, x[s], p[s]))
-                b_ = float(call(atm.integrate_water_vapor, x[s], p[s], T[s], z[s]))
-                D.append(abs(a_ - b_) / abs(a_))
-                evals[0] += 2
+                hyd, gen, defect, contrast, rm1, slack = forms(x[s], p[s], T[s])
+                d = float(rm1.max()) * (1 + 1e-12)
+                # |T(a) - T(b)| <= T0 kap (a/b - 1)   (kap <= 1);   |x(a) - x(b)| <= x0 a (1 + d)^(a-1) (a/b - 1)   (a >= 1)
+                LT, Lx, Tmin = T0 * kap, x0 * a * (1 + d) ** (a - 1), float(T[s].min())
+                C = 1 + (kM - 1) * Lx + LT / Tmin
+                first = C * d * hyd
+                second = C * d * kM * Lx * d * float(p[s][0] - p[s][-1]) / (2 * g)
+                ok = ok and abs(gen - hyd) <= first + slack and abs(gen - hyd) <= second * (1 + 1e-9) + slack
+                D.append(abs(gen - hyd) / abs(hyd))
+                evals[0] += 3
             case = {"T0": T0, "kappa": kap, "x0": x0, "a": a, "levels": [N // s + 1 for s in (128, 32, 8, 2)], "rel_difference": D}
+            if not ok:
+                bad("integrate_water_vapor:forms-close", "smooth profiles on refined grids: |general - hydrostatic| exceeds C d * hydrostatic "
+                    f"or the second-order bound of iwv_forms_close_under_refinement; relative differences {D}", case)
             if not (D[-1] <= 1e-5 and D[-1] <= max(D[:3]) / 20 + 1e-9):
                 bad("integrate_water_vapor:forms-converge", "hydrostatic and general IWV do not approach each other on refined grids: "
                     f"relative differences {D} on {case['levels']} levels", case)
 
     guarded("integrate_water_vapor:laws", iwv_laws)
+    guarded("integrate_water_vapor:forms", iwv_forms)
     guarded("integrate_water_vapor:forms-converge", iwv_convergence)
 
     # ---- column_relative_humidity -------------------------------------------------------------------------------
@@ -616,7 +689,7 @@ def run(ctx):
         check_constants(ctx)
         have_hydro = proved
         if not proved:
-            ok_model, log, _ = core.coq_build([core.THEORIES / "Model" / "C14_column.v"])
+            ok_model, log, _ = core.coq_build([core.THEORIES / "Model" / "C14_column.v", core.THEORIES / "Model" / "C14_forms.v"])
             ok_h, _, _ = core.coq_build([core.THEORIES / "Proofs" / "C14_hydro.v"]) if ok_model else (False, "", None)
             have_hydro = ok_h
         cases, raised = enclosure_cases(ctx, mc, atm, have_hydro)
@@ -664,7 +737,8 @@ def run(ctx):
                                      "T = power law in p plus noise; vmr <= 0.05")
     ctx.assumptions += ["y and x have the same length along the integration axis, x is one-dimensional",
                         "physically admissible profiles: 0 <= vmr <= 1, p > 0 strictly decreasing, T > 0, e_s(T) < p",
-                        "IWV forms: agreement is a convergence statement, checked numerically on refined grids only"]
+                        "IWV forms: the general form is taken over z = pressure2height(p, T_v) (the moist column); the identity, the "
+                        "closeness bounds and the limit are theorems of the model and are swept on the implementation"]
     if shimmed:
         ctx.assumptions.append("numpy.trapz was provided from outside after integrate_column:raises had been recorded")
     return ctx.finish(trusted_base=TRUSTED)
